@@ -65,6 +65,7 @@ def run_history(chk, uni, drv, rng, stats):
             uni.funs[fi](1)
             early.__exit__(None, None, None)
             hist.append({"op": "earlier probe on the same selector, released"})
+            neighbours.append(("released", early))
     n = rng.randrange(5, 16)
     for _ in range(n):
         r = rng.random()
@@ -105,6 +106,14 @@ def run_history(chk, uni, drv, rng, stats):
                 st["live"] = False
         elif r < 0.5:
             attach()
+        elif r < 0.53 and any(isinstance(nb, tuple) for nb in neighbours):
+            # the released neighbour is deactivated a second time (refused or ignored): nothing of THIS probe may change
+            released = [nb[1] for nb in neighbours if isinstance(nb, tuple)][0]
+            try:
+                released.__exit__(None, None, None)
+            except Exception:
+                pass
+            hist.append({"op": "the released neighbour is deactivated a second time"})
         elif r < 0.58:
             # a suspended instrumented generator (started before this probe existed, perhaps) is advanced
             if uni.gen is None:
@@ -163,7 +172,8 @@ def run_history(chk, uni, drv, rng, stats):
             st["live"] = False
     uni.funs[fi](9)      # after deactivation: silence
     for nb in neighbours:
-        nb.__exit__(None, None, None)
+        if not isinstance(nb, tuple):
+            nb.__exit__(None, None, None)
     hist.append({"op": "call", "f": fi, "x": 9})
     model_ops.append({"op": "call", "f": fi})
     for si, st in enumerate(stages):
@@ -250,8 +260,22 @@ def run(chk):
         "probed and of another function, deactivation normally or as if by an exception, calls afterwards; "
         "non-trivial = the probe was deactivated in the history and at least one stage received an event")
     stats = {"histories": 0, "disagreements": 0}
+    broken = 0
     for _ in range(300 if chk.tier == "quick" else 6000):
-        run_history(chk, uni, drv, chk.rng, stats)
+        try:
+            run_history(chk, uni, drv, chk.rng, stats)
+        except Exception as e:
+            # a probe of a NEW history could not be set up: the histories before it left something behind in the
+            # functions (every history ends with all its probes deactivated)
+            broken += 1
+            if broken <= 3:
+                chk.violation("oracle", "after histories that deactivated all their probes, a fresh probe is refused or "
+                              "fails: %s: %s" % (type(e).__name__, str(e)[:160]),
+                              {"note": "state left behind by earlier histories of this run (seed %s)" % chk.seed})
+            from ptera.overlay import HandlerCollection
+            HandlerCollection.current.set(None)
+            uni.drop()
+            uni = L.Universe()
     chk.cov["correspondence"]["histories"] = stats
     chk.assumptions += [
         "giving.SourceProxy (_push iterates the observers; __exit__ completes them, clears them, then calls _exit) and the reactivex operators are external: modelled and validated by this correspondence, not verified",
